@@ -521,6 +521,44 @@ theorem stored_cut_bounds_entry (cut : Int) (key : Nat) (stored ttl t : Int) :
 example : storeCut (some (30 * sec)) 7 = (some (30 * sec), 7) ∧
     remaining 0 (3600 * sec) (storeCut (some (30 * sec)) 7).1 (30 * sec) = 0 := by decide
 
+/-- **hit_bounds_request.** A cache hit folds the entry's lifetime into the request tree:
+afterwards the request's cut is bounded, not later than the entry's own expiry, not later
+than the entry's delegation cut, and not later than what the request was already bound
+by — so anything composed from the hit (an alias adopting a cached NXDOMAIN, a chase
+through a cached target) ends with the lease the hit was learned through, floor or not. -/
+theorem hit_bounds_request (m : Meta) (stored ttl : Int) (cut : Deadline) (key : Nat) :
+    ∃ c, (entryBound m stored ttl cut key).cut = some c ∧ c ≤ stored + ttl ∧
+      (∀ x, cut = some x → c ≤ x) ∧ (∀ y, m.cut = some y → c ≤ y) := by
+  unfold entryBound
+  cases cut with
+  | none =>
+    obtain ⟨c, hc, h1, h2, _⟩ := boundCutFor_some m (stored + ttl) 0
+    exact ⟨c, hc, h1, (by intro x h; cases h), h2⟩
+  | some x =>
+    simp only
+    by_cases h : x ≤ stored + ttl
+    · simp only [h, if_true]
+      obtain ⟨c, hc, h1, h2, _⟩ := boundCutFor_some m x key
+      exact ⟨c, hc, by omega, (by intro x' hx; cases hx; exact h1), h2⟩
+    · simp only [h, if_false]
+      obtain ⟨c, hc, h1, h2, _⟩ := boundCutFor_some m (stored + ttl) 0
+      exact ⟨c, hc, h1, (by intro x' hx; cases hx; omega), h2⟩
+
+-- a cached NXDOMAIN on the 5 s floor whose lease ends after 2 s, adopted by a request already bound at 1 h: 2 s
+example : (entryBound ⟨some (3600 * sec), 9⟩ 0 (5 * sec) (some (2 * sec)) 7) = ⟨some (2 * sec), 7⟩ := by decide
+
+/-- **referral_glue_wins.** The servers a glued referral yields — and what the glue address
+cache, which has no lease of its own, holds afterwards — are the addresses of THIS referral,
+whatever the cache held before: a re-pointed glue address is followed at once. -/
+theorem referral_glue_wins (cached referral : List Nat) (h : referral ≠ []) :
+    glueFromReferral cached referral = (referral, referral) := by
+  unfold glueFromReferral
+  cases referral with
+  | nil => exact absurd rfl h
+  | cons x t => rfl
+
+example : glueFromReferral [11] [12] = ([12], [12]) ∧ glueFromReferral [11] [] = ([], [11]) := by decide
+
 /-- **refresh_keeps_cut.** Whatever a background refresh writes back —
 positive answer, NXDOMAIN, NODATA or SERVFAIL — the replacement entry carries
 exactly the cut of the refresh's own resolution (never none when that is bounded),
